@@ -18,6 +18,7 @@
 //	slow-reader-close-callback-missing                OnConnClose / OnSessionClose did not fire for something that was opened
 //	slow-reader-close-callback-duplicated             an open / close callback pair was unbalanced on one object
 //	slow-reader-other-connection-not-served           the well-behaved reader stopped receiving packets or answers
+//	slow-reader-paused-session-still-active-reader    a PAUSE answered 200 left the session in the stream's active-reader list
 //	slow-reader-server-close-hang                     Server.Close did not return at the end
 //	slow-reader-setup-failed                          SETUP / PLAY of the hostile peer or of the good reader was not answered 200
 package main
@@ -91,7 +92,7 @@ func (sc slowScen) closeBound() time.Duration {
 
 var slowActions = []string{
 	"pause", "teardown", "play", "getparam", "options", "setup", "garbage", "half", "close", "reset", "none",
-	"pause+teardown", "setparam", "describe", "pause-other-session", "pause-no-session", "frame", "pause-twice",
+	"pause+teardown", "setparam", "describe", "pause-other-session", "pause-no-session", "frame", "pause-twice", "frames",
 }
 
 // dialSlow connects with a (possibly) tiny receive buffer, set before the handshake so that the
@@ -474,7 +475,7 @@ func runSlow(sc slowScen, out *workerOut, mu *sync.Mutex) {
 		data = []byte("\x00\xff\x13 garbage \r\n\r\nRTSP/1.0 what\r\n\r\n")
 	case "half":
 		data = []byte("PAUSE " + u + " RTSP/1.0\r\nCSeq: 4\r\nSession: " + sess + "\r\n")
-	case "frame":
+	case "frame", "frames":
 		data = frame(1, []byte{0x80, 201, 0, 1, 0x11, 0x22, 0x33, 0x44}) // an RTCP receiver report, as a reader may send
 	case "close":
 		nc.Close()
@@ -490,6 +491,19 @@ func runSlow(sc slowScen, out *workerOut, mu *sync.Mutex) {
 	if data != nil {
 		nc.SetWriteDeadline(time.Now().Add(5 * time.Second))
 		nc.Write(data) //nolint:errcheck
+	}
+	if sc.Action == "frames" {
+		// a peer whose receive path is stuck but which keeps sending receiver reports: the read deadline
+		// (IdleTimeout) never fires, only the write timeout can end this connection
+		go func() {
+			for {
+				time.Sleep(250 * time.Millisecond)
+				nc.SetWriteDeadline(time.Now().Add(2 * time.Second))
+				if _, err := nc.Write(data); err != nil {
+					return
+				}
+			}
+		}()
 	}
 	// keep the pressure on while the request is handled
 	if s, err := ch.ask(fmt.Sprintf("B 32 %d", sc.PktSize), 20*time.Second); err == nil {
@@ -549,7 +563,7 @@ func runSlow(sc slowScen, out *workerOut, mu *sync.Mutex) {
 	}
 	answerable := false // the action is at least one complete request
 	switch sc.Action {
-	case "none", "half", "frame", "garbage", "close", "reset":
+	case "none", "half", "frame", "frames", "garbage", "close", "reset":
 	default:
 		answerable = true
 	}
@@ -588,6 +602,14 @@ func runSlow(sc slowScen, out *workerOut, mu *sync.Mutex) {
 			}
 			if gotStatus != 0 && answerable {
 				kinds[fmt.Sprintf("slow:answered-%d", gotStatus)]++
+				if gotStatus == 200 && sc.Action == "pause" && blocked {
+					// a PAUSE answered 200 has released the session's active-reader slot (readerSetInactive
+					// precedes the response); the slot of the well-behaved reader stays
+					if st2, err := ch.counts(); err == nil && st2.Sessions == st.Sessions && st2.Active > expectOpen {
+						add("slow-reader-paused-session-still-active-reader",
+							"PAUSE was answered 200 but the stream still lists %d active unicast readers (expected %d: only the well-behaved reader)", st2.Active, expectOpen)
+					}
+				}
 				break
 			}
 			if answerable && !reading && time.Now().After(lateRead) {
@@ -695,6 +717,7 @@ func slowCorpus() []slowScen {
 		b("DASPRUGT", 1, "close", 50, false, false),
 		b("DASPRUGT", 2, "reset", 20, true, false),
 		b("DASPRUGT", 1, "none", 0, false, false),
+		b("DASPRUGT", 2, "frames", 0, false, false),
 	}
 }
 
@@ -738,7 +761,7 @@ func slowScenarios(r *hx.Rand, thorough bool) []slowScen {
 				continue
 			}
 			for d := 0; d <= 200; d += 10 {
-				if (act == "close" || act == "reset" || act == "none" || act == "garbage") && d%40 != 0 {
+				if (act == "close" || act == "reset" || act == "none" || act == "garbage" || act == "frames") && d%40 != 0 {
 					continue
 				}
 				m := 1 + (d/10)%2
